@@ -55,7 +55,9 @@ def strategy(tier):
 
 def fixed_cases(tier):
     out = [{"spec": s, "_label": "fixed_specs"} for s in gen_codedata.FIXED_SPECS + gen_codedata.cascade_specs()]
-    for src in ["x = 1\n", "def f(a):\n return a.b + 1\n", "def f():\n return\n x = 'dead'\n"]:
+    for src in ["x = 1\n", "def f(a):\n return a.b + 1\n", "def f():\n return\n x = 'dead'\n",
+                "def outer(y):\n    def inner(x):\n        if 0:\n            g = lambda: x\n        return y\n    return inner\n",
+                "def outer(y):\n    def inner(x):\n        return\n        g = lambda: x\n        return y\n    z = y\n    return inner, z\n"]:
         for e in EDITS:
             for k in (0, 1, 3):
                 out.append({"case": {"src": src, "mode": "exec", "optimize": 0, "min_version": 7}, "edit": {"kind": e, "k": k, "to": 5}, "pick": k, "_label": "override_edits"})
